@@ -472,7 +472,12 @@ def rule_ctor_domain(run):
     c09.rule_ctor_domain(run)   # an int operand becomes a Signed/Unsigned constant only when representable (no silent wrap)
 
 
-RULES = [rule_rows, rule_hops, rule_tokens, rule_exhaustive, rule_casts, rule_flags, rule_siblings, rule_widths, rule_intarith, rule_ext, rule_castmatrix, rule_tracer_tables, rule_resize, rule_views, rule_alias, rule_backend_sites, rule_cleanup, rule_ctor_domain]
+def rule_div_wrap(run):
+    from . import c09
+    c09.rule_div_wrap(run)   # truncdiv wraps modulo the dividend width, also when folded
+
+
+RULES = [rule_rows, rule_hops, rule_tokens, rule_exhaustive, rule_casts, rule_flags, rule_siblings, rule_widths, rule_intarith, rule_ext, rule_castmatrix, rule_tracer_tables, rule_resize, rule_views, rule_alias, rule_backend_sites, rule_cleanup, rule_ctor_domain, rule_div_wrap]
 
 LEVEL = "other"
 EXPLANATION = (
